@@ -136,6 +136,7 @@ var shapes = map[string]*shape{
 	"HasMapAny":    stc("map", fd("M", mpo(shAny))),
 	"HasMapN":      stc("map", fd("M", &shape{kind: "map", elem: shInt, elemNul: true}), fd("LL", lst(lst(shStr, false), false)), fn("NL", lst(shInt, false))),
 	"HasMapOpt":    stc("map", fd("M", mpo(stc("map", fo("A", shStr), fd("L", lst(shInt, false)), fd("M", mpo(shInt)))))),
+	"RawOptB":      stc("map", fo("A", shBytes), fn("B", shBytes), fd("C", shBytes), fd("Z", shInt)),
 	"OptColl":      stc("map", fo("L", lst(shStr, false)), fn("B", shBytes), fo("M", mpo(shInt)), fn("NL", lst(shInt, false)), fo("OB", shBytes), fd("Z", shInt)),
 	"HasUKM":       stc("map", fd("A", shUKM), fd("B", shUKM), fd("C", shUKM), fd("D", shUKM)),
 	"HasUK2":       stc("map", fd("A", shUK2), fd("B", shUK2), fd("C", shUK2), fd("D", shUK2)),
@@ -246,7 +247,7 @@ func expectV(v reflect.Value, sh *shape, repr bool) *model.V {
 				ents = append(ents, ent{k, model.NullV()})
 				continue
 			}
-			if f.optional || f.nullable {
+			if (f.optional || f.nullable) && fv.Kind() == reflect.Ptr {
 				fv = fv.Elem()
 			}
 			k := f.name
